@@ -426,8 +426,8 @@ def run(ctx):
                 continue
             ntr += 1
             before = [x for x in pt.events[:i_] if x[0] == "branch"]
-            emp = any(x[1] == ("nz", "ep_empty(%s)" % eb) and x[2] for x in before)
-            allsp = any(x[1] == ("==",) + tuple(sorted(("%s->qstart_time" % eb, "%s->speech_end" % eb))) and x[2] for x in before)
+            emp = any(symx.plain(x[1]) == ("nz", "ep_empty(%s)" % eb) and x[2] for x in before)
+            allsp = any(symx.plain(x[1]) == ("==",) + tuple(sorted(("%s->qstart_time" % eb, "%s->speech_end" % eb))) and x[2] for x in before)
             oktr = oktr and emp and allsp
     ctx.check(r8, oktr and ntr >= 1, key(es, "trailing-after-all-speech"), es.where(es.root), "the trailing partial frame is appended without knowing that the queue is empty and its last frame was speech (speech_end == qstart_time): after a final non-speech frame the caller gets samples that are not part of the segment")
     # trailing frame guard nsamp <= frame_size dominates everything after
